@@ -9,7 +9,12 @@ from argparse import ArgumentParser
 from typing import Any, Container, Dict, Iterable, List, Optional, TextIO, Union, cast
 
 import pdfminer
-from pdfminer.pdfdocument import PDFDocument, PDFNoOutlines, PDFXRefFallback
+from pdfminer.pdfdocument import (
+    PDFDestinationNotFound,
+    PDFDocument,
+    PDFNoOutlines,
+    PDFXRefFallback,
+)
 from pdfminer.pdfexceptions import (
     PDFIOError,
     PDFObjectNotFound,
@@ -166,15 +171,24 @@ def dumpoutline(
     }
 
     def resolve_dest(dest: object) -> Any:
-        if isinstance(dest, (str, bytes)):
-            dest = resolve1(doc.get_dest(dest))
-        elif isinstance(dest, PSLiteral):
-            dest = resolve1(doc.get_dest(dest.name))
+        # Indirect references are transparent wherever they occur.
+        dest = resolve1(dest)
+        try:
+            if isinstance(dest, (str, bytes)):
+                dest = resolve1(doc.get_dest(dest))
+            elif isinstance(dest, PSLiteral):
+                dest = resolve1(doc.get_dest(dest.name))
+        except PDFDestinationNotFound:
+            return None
         if isinstance(dest, dict):
-            dest = dest["D"]
-        if isinstance(dest, PDFObjRef):
-            dest = dest.resolve()
+            dest = resolve1(dest.get("D"))
         return dest
+
+    def page_number(dest: object) -> Optional[int]:
+        # None if the destination does not lead to a page of this document.
+        if isinstance(dest, list) and dest and isinstance(dest[0], PDFObjRef):
+            return pages.get(dest[0].objid)
+        return None
 
     try:
         outlines = doc.get_outlines()
@@ -183,14 +197,14 @@ def dumpoutline(
             pageno = None
             if dest:
                 dest = resolve_dest(dest)
-                pageno = pages[dest[0].objid]
+                pageno = page_number(dest)
             elif a:
-                action = a
+                action = resolve1(a)
                 if isinstance(action, dict):
                     subtype = action.get("S")
                     if subtype and repr(subtype) == "/'GoTo'" and action.get("D"):
                         dest = resolve_dest(action["D"])
-                        pageno = pages[dest[0].objid]
+                        pageno = page_number(dest)
             s = escape(title)
             outfp.write(f'<outline level="{level!r}" title="{s}">\n')
             if dest is not None:
